@@ -176,6 +176,9 @@ def _st_labels(draw, n):
     return spec
 
 
+_MEMS = ["c", "c", "ro", "strided", "ro_strided"]
+
+
 @st.composite
 def _interp_case(draw):
     g = draw(_st_geom())
@@ -186,14 +189,72 @@ def _interp_case(draw):
             "dc": draw(st.sampled_from([1.0, -5.0, 100.0, 3e-4, -2e-5])),
             "amp": draw(st.sampled_from([1e-3, 1e-2, 0.1])), "dtype": draw(st.sampled_from(["f8", "f8", "f4"]))}
     p, kd = draw(st.sampled_from([(1.3, 20), (1.3, 20), (1.3, 20), (1.0, 20), (2.0, 20), (1.3, 10), (1.3, 40), (1.3, 6)]))
-    return {"kind": "interp", "geom": g, "labels": lab, "label_dtype": draw(st.sampled_from(["f8", "f8", "i8", "i1"])),
+    case = {"kind": "interp", "geom": g, "labels": lab,
+            "label_dtype": draw(st.sampled_from(["f8", "f8", "i8", "i1", "u1", "i4", "f4"])),
             "data": data, "p": p, "kd": kd}
+    # call form, re-use, argument memory / dtype (all read with case.get: old corpus cases lack them)
+    case["args_form"] = draw(st.sampled_from(["pos", "pos", "kw"]))
+    case["pk_form"] = draw(st.sampled_from(["auto", "auto", "explicit", "single"]))
+    case["geom_dtype"] = draw(st.sampled_from(["f8", "f8", "xi8", "xi8", "i8", "f4"]))
+    case["geom_mem"] = draw(st.sampled_from(_MEMS))
+    case["label_mem"] = draw(st.sampled_from(_MEMS))
+    case["data_layout"] = draw(st.sampled_from(["C", "C", "F", "strided"]))
+    case["share_args"] = draw(st.sampled_from([True, True, False]))
+    if draw(st.integers(0, 1)):
+        case["prime"] = {"mode": draw(st.sampled_from(["all_bad", "dilate", "dilate", "complement", "roll"])),
+                         "k": draw(st.integers(1, 6))}
+    return case
 
 
 # ------------------------------------------------------------------------------------------------------------------
 # interpolation: oracle
 
-_DT = {"f8": np.float64, "f4": np.float32, "i8": np.int64, "i1": np.int8}
+_DT = {"f8": np.float64, "f4": np.float32, "i8": np.int64, "i1": np.int8, "u1": np.uint8, "i4": np.int32}
+EPS32 = float(np.finfo(np.float32).eps)
+
+
+def _vec(a, mem):
+    """A fresh 1-D argument object holding the values of `a`: 'c' contiguous, 'strided' every second element of a longer
+    array (the elements in between hold junk), 'ro' read-only (what np.memmap(mode='r') or a cached table hands out)."""
+    a = np.asarray(a)
+    if "strided" in mem:
+        big = np.full(2 * a.size + 1, 97, dtype=a.dtype)
+        big[1::2] = a
+        a = big[1::2]
+    else:
+        a = np.array(a, copy=True)
+    if "ro" in mem:
+        a.flags.writeable = False
+    return a
+
+
+def _mat(D, layout, junk=0.0):
+    """A fresh writable 2-D array equal to D: C-ordered, Fortran-ordered (= the transposed view of a (ns, nc) C array, what
+    Reader[...].T is) or a view on every second row and column of a larger array."""
+    if layout == "F":
+        return np.array(D, order="F", copy=True)
+    if layout == "strided":
+        big = np.full((2 * D.shape[0] + 1, 2 * D.shape[1] + 1), junk, dtype=D.dtype)
+        big[1::2, 1::2] = D
+        return big[1::2, 1::2]
+    return np.array(D, order="C", copy=True)
+
+
+def _prime_labels(lab, prime):
+    """Another label vector for the same geometry (the call made before the calls that are checked)."""
+    n, mode, k = lab.size, prime["mode"], int(prime.get("k", 1))
+    bad = (lab == 1) | (lab == 2)
+    if mode == "all_bad":
+        return np.ones(n, dtype=np.int64)
+    if mode == "dilate":
+        out = lab.copy()
+        for i in np.flatnonzero(bad):
+            sl = slice(max(0, i - k), i + k + 1)
+            out[sl] = np.where(bad[sl], out[sl], 1 + (i % 2))
+        return out
+    if mode == "complement":
+        return np.where(lab == 0, 1, np.where(bad, 0, lab)).astype(np.int64)
+    return np.roll(lab, k)
 
 
 def _make_data(n, d):
@@ -215,14 +276,38 @@ def _run_interp(case, ctx):
     v = sut.voltage()
     x, y = _geometry(case["geom"])
     n = x.size
+    # dtype of the coordinates as handed over: neuropixel.trace_header gives x as int64 and y as float64 ('xi8'); the oracle
+    # works on the values that are handed over (rounded to integers / to float32), in float64
+    gdt = case.get("geom_dtype", "f8")
+    if gdt in ("xi8", "i8"):
+        xg = np.round(x).astype(np.int64)
+        yg = np.round(y).astype(np.int64) if gdt == "i8" else y
+    elif gdt == "f4":
+        xg, yg = x.astype(np.float32), y.astype(np.float32)
+    else:
+        xg, yg = x, y
+    x, y = xg.astype(np.float64), yg.astype(np.float64)
+    f4geom = gdt == "f4"
+    near_rel = 2e-5 if f4geom else 1e-9  # float32 coordinates: the raw weights carry ~2e-6 relative rounding error
     lab = _labels(n, case["labels"])
     bad = (lab == 1) | (lab == 2)
     ibad = np.flatnonzero(bad)
-    lab_arr = lab.astype(_DT[case["label_dtype"]])
+    ldt = _DT[case["label_dtype"]]
     p, kd = case["p"], case["kd"]
-    kw = {} if (p, kd) == (1.3, 20) else {"p": p, "kriging_distance_um": kd}
+    pkf = case.get("pk_form", "auto")
+    if pkf == "explicit":
+        kw = {"p": p, "kriging_distance_um": kd}  # both keywords given, also at their default values
+    elif pkf == "single":
+        kw = dict(([("p", p)] if p != 1.3 else []) + ([("kriging_distance_um", kd)] if kd != 20 else []))
+    else:
+        kw = {} if (p, kd) == (1.3, 20) else {"p": p, "kriging_distance_um": kd}
     D, rng = _make_data(n, case["data"])
     eps = float(np.finfo(D.dtype).eps)
+    layout = case.get("data_layout", "C")
+    gmem, lmem = case.get("geom_mem", "c"), case.get("label_mem", "c")
+    share = case.get("share_args", False)
+    kwform = case.get("args_form", "pos") == "kw"
+    prime = case.get("prime")
 
     # neighbourhoods from the definition
     adm, amb = {}, {}
@@ -230,15 +315,19 @@ def _run_interp(case, ctx):
     for i in ibad:
         d = np.hypot(x - x[i], y - y[i])
         raw = np.exp(-((d / kd) ** p))
-        near = np.abs(raw - CUT) <= CUT * 1e-9
+        near = np.abs(raw - CUT) <= CUT * near_rel
         a = (~bad) & (raw >= CUT) & ~near
         adm[i], amb[i] = a, (~bad) & near
         if np.any(bad & (raw >= CUT) & (np.arange(n) != i)):
             clustered = True
     g = case["geom"]
     ctx.label("interp", "geom_" + (g.get("gen") or g["type"]), "dtype_" + case["data"]["dtype"], "data_" + case["data"]["mode"],
-              "labels_" + case["label_dtype"], "default_pk" if not kw else "custom_pk",
-              "perm" if g.get("perm_seed") is not None else "disk_order")
+              "labels_" + case["label_dtype"], "default_pk" if (p, kd) == (1.3, 20) else "custom_pk",
+              "perm" if g.get("perm_seed") is not None else "disk_order",
+              "pk_omitted" if not kw else ("pk_explicit_default" if (p, kd) == (1.3, 20) else f"pk_{len(kw)}_keywords"),
+              "args_keywords" if kwform else "args_positional", "xy_" + gdt, "xy_mem_" + gmem, "labels_mem_" + lmem,
+              "data_" + layout, "same_argument_objects" if share else "fresh_argument_objects",
+              "after_call_with_other_labels_" + prime["mode"] if prime else "first_call_for_geometry_in_case")
     if ibad.size == 0:
         ctx.label("no_bad")
     if ibad.size == n:
@@ -256,8 +345,32 @@ def _run_interp(case, ctx):
     if ibad.size and (clustered or bad[0] or bad[-1]):
         ctx.nontrivial = True
 
-    def call(arr):
-        out = ctx.call("C15.interp", v.interpolate_bad_channels, arr, lab_arr.copy(), x.copy(), y.copy(), **kw)
+    shared = {}
+
+    def geom_args():
+        # the same x / y objects for every call of the case (as decompress_destripe_cbin does with its header) or fresh ones
+        if not share or "xy" not in shared:
+            shared["xy"] = (_vec(xg, gmem), _vec(yg, gmem))
+        return shared["xy"]
+
+    def call(arr, labels=None):
+        if labels is None:
+            if not share or "lab" not in shared:
+                shared["lab"] = _vec(lab.astype(ldt), lmem)
+            la, lref = shared["lab"], lab
+        else:
+            la, lref = _vec(labels.astype(ldt), lmem), labels
+        xa, ya = geom_args()
+        arr = _mat(arr, layout, junk=1e6)
+        if kwform:
+            out = ctx.call("C15.interp", v.interpolate_bad_channels, arr, channel_labels=la, x=xa, y=ya, **kw)
+        else:
+            out = ctx.call("C15.interp", v.interpolate_bad_channels, arr, la, xa, ya, **kw)
+        # destripe / decompress_destripe_cbin go on using the label vector and the header after the call
+        ctx.check(np.array_equal(la, lref) and np.array_equal(xa, xg) and np.array_equal(ya, yg), "C15.interp.args_modified",
+                  lambda: "the call changed its " + ", ".join(
+                      nm for nm, a, b in (("channel_labels", la, lref), ("x", xa, xg), ("y", ya, yg)) if not np.array_equal(a, b))
+                  + " argument in place")
         if out is ctx.CRASH:
             return None
         if not (isinstance(out, np.ndarray) and out.shape == arr.shape):
@@ -265,10 +378,22 @@ def _run_interp(case, ctx):
             return None
         return out
 
+    # (0) a call with the same geometry and another label vector comes first (state kept per geometry must not leak)
+    if prime:
+        labp = _prime_labels(lab, prime)
+        Dp = np.ones((n, 2), dtype=D.dtype)
+        outp = call(Dp, labels=labp)
+        if outp is None:
+            return
+        keep = (labp != 1) & (labp != 2)
+        ctx.check(np.array_equal(outp[keep], Dp[keep]), "C15.interp.untouched",
+                  lambda: "first call of the case: a row not labelled 1/2 is not bit-identical to the input")
+
     # (1) identity matrix -> weights
     W = call(np.eye(n))
     if W is None:
         return
+    wtol = (int(n) + 4) * EPS32 if f4geom else 1e-10  # float32 coordinates give float32 weights
     renorm_rows = set()
     good = ~bad
     if not np.array_equal(W[good], np.eye(n)[good]):
@@ -290,7 +415,7 @@ def _run_interp(case, ctx):
         s = float(w.sum())
         if a.any():
             err = abs(s - 1)
-            if err > 1e-10:
+            if err > wtol:
                 # classification only: is this the 'cut-off applied again after normalisation' signature?
                 raw = np.exp(-((np.hypot(x - x[i], y - y[i]) / kd) ** p)) * allowed
                 wn = raw / raw.sum()
@@ -310,7 +435,7 @@ def _run_interp(case, ctx):
                       lambda: f"bad channel {i} has no admissible neighbour but identity input gives a non-zero row")
 
     # (2) data: untouched rows, range, zero rule
-    out = call(D.copy())
+    out = call(D)
     if out is None:
         return
     if not np.array_equal(out[good], D[good]):
@@ -327,7 +452,7 @@ def _run_interp(case, ctx):
         nb = D[allowed].astype(np.float64)
         lo, hi = nb.min(axis=0), nb.max(axis=0)
         scale = float(np.max(np.abs(nb)))
-        tol = (4 * eps + 4 * int(allowed.sum()) * 2.3e-16) * scale
+        tol = (4 * eps + 4 * int(allowed.sum()) * 2.3e-16 + (wtol if f4geom else 0.0)) * scale
         o = out[i].astype(np.float64)
         if not np.all(np.isfinite(o)):
             ctx.fail("C15.interp.range", f"bad channel {i}: non-finite values although its {int(allowed.sum())} admissible "
@@ -347,7 +472,7 @@ def _run_interp(case, ctx):
         D2 = D.copy()
         junk = (1e3 * (abs(case["data"]["dc"]) + 1) * (1 + rng.standard_normal((ibad.size, D.shape[1])))).astype(D.dtype)
         D2[ibad] = junk
-        out2 = call(D2.copy())
+        out2 = call(D2)
         if out2 is None:
             return
         ctx.check(np.array_equal(out2[ibad], out[ibad]), "C15.interp.depends_on_bad_rows",
@@ -492,11 +617,47 @@ def _st_fault(draw, nc, file_safe=False):
     return _sanitize(f, nc)
 
 
+_DETECT_FORMS = ["pos", "fs_kw", "explicit", "explicit_list", "psd_only", "sim_only", "mild_lo", "mild_hi"]
+
+
+def _detect_call_args(form, fs):
+    """(positional tail, keywords) of a detect_bad_channels call. 'explicit*' give the documented defaults by hand (0.02 is the
+    AP-band default of psd_hf_threshold=None); 'mild_*' move the thresholds by less than a third of the measured margins."""
+    if form == "fs_kw":
+        return (), {"fs": fs}
+    kw = {"explicit": {"similarity_threshold": (-0.5, 1), "psd_hf_threshold": 0.02, "display": False},
+          "explicit_list": {"similarity_threshold": [-0.5, 1.0], "psd_hf_threshold": np.float64(0.02)},
+          "psd_only": {"psd_hf_threshold": 0.02},
+          "sim_only": {"similarity_threshold": np.array([-0.5, 1.0])},
+          "mild_lo": {"similarity_threshold": (-0.4, 0.8), "psd_hf_threshold": 0.012},
+          "mild_hi": {"similarity_threshold": (-0.6, 1.5), "psd_hf_threshold": 0.035}}.get(form, {})
+    return (fs,), kw
+
+
+def _detect_input(X, layout, ro):
+    """The array handed to detect_bad_channels: C-ordered, the transposed view of a C-ordered (ns, nc) array (what
+    Reader[first:last, :nc].T is), or every second sample of a longer array; optionally read-only."""
+    if layout == "T":
+        A = np.array(X.T, order="C", copy=True).T
+    elif layout == "strided":
+        A = np.full((X.shape[0], 2 * X.shape[1]), 1e-3, dtype=X.dtype)
+        A[:, ::2] = X
+        A = A[:, ::2]
+    else:
+        A = np.array(X, order="C", copy=True)
+    if ro:
+        A.flags.writeable = False
+    return A
+
+
 @st.composite
 def _detect_case(draw):
     nc = draw(st.sampled_from([384, 384, 384, 384, 276, 192, 96]))
     return {"kind": "detect", "nc": nc, "ns": draw(st.sampled_from([9000, 9000, 6000, 12000])), "fs": draw(st.sampled_from([FS_AP, FS_AP, 29999.757983])),
-            "dtype": draw(st.sampled_from(["f8", "f4"])), "bg": draw(_st_bg()), "fault": draw(_st_fault(nc))}
+            "dtype": draw(st.sampled_from(["f8", "f4"])), "bg": draw(_st_bg()), "fault": draw(_st_fault(nc)),
+            "layout": draw(st.sampled_from(["C", "T", "T", "strided"])), "ro": draw(st.booleans()),
+            "kw": draw(st.sampled_from(_DETECT_FORMS)),
+            "reuse": draw(st.sampled_from(["none", "none", "none", "none", "none", "none", "pollute", "twice"]))}
 
 
 @st.composite
@@ -526,7 +687,9 @@ def _file_case(draw):
         faults = [faults[0]] * nb
     return {"kind": "file", "gen": gen, "cbin": draw(st.sampled_from([False, False, True])), "nb": nb,
             "bd": bd, "gap": gap, "fs": draw(st.sampled_from([FS_AP, 29999.757983])),
-            "bg": draw(_st_bg()), "faults": faults, "sync_seed": draw(st.integers(0, 2 ** 16))}
+            "bg": draw(_st_bg()), "faults": faults, "sync_seed": draw(st.integers(0, 2 ** 16)),
+            "input": draw(st.sampled_from(["path", "str", "reader", "reader", "reader_twice"])),
+            "batch_view": draw(st.booleans())}
 
 
 def strategy(tier):
@@ -621,22 +784,57 @@ def _run_detect(case, ctx):
     _inject(X, slice(0, ns), fault, bg, fs, rng)
     X = np.ascontiguousarray(X.astype(_DT[case["dtype"]]))
     allowed, special = _expected(nc, fault)
-    ctx.label("detect", f"nc{nc}", "dtype_" + case["dtype"], f"nsrc{bg['nsrc']}", "lf_common" if bg.get("lf_uv") else "no_lf")
+    layout, ro, form, reuse = case.get("layout", "C"), case.get("ro", False), case.get("kw", "pos"), case.get("reuse", "none")
+    if special and form.startswith("mild"):
+        form = "explicit"  # the two known placements are diagnosed at the default thresholds only
+    ctx.label("detect", f"nc{nc}", "dtype_" + case["dtype"], f"nsrc{bg['nsrc']}", "lf_common" if bg.get("lf_uv") else "no_lf",
+              "input_" + layout, "input_read_only" if ro else "input_writable", "call_" + form, "reuse_" + reuse)
     _fault_labels(ctx, fault, nc)
     if fault.get("dead") is not None or fault.get("noisy") is not None or fault.get("blk"):
         ctx.nontrivial = True
-    Xin = X.copy()
-    r = ctx.call("C15.detect", v.detect_bad_channels, Xin, fs)
-    if r is ctx.CRASH:
+    Xin = _detect_input(X, layout, ro)
+    tail, kw = _detect_call_args(form, fs)
+
+    def unpack(r):
+        if r is ctx.CRASH:
+            return None
+        if not (isinstance(r, tuple) and len(r) == 2 and isinstance(r[1], dict)):
+            ctx.fail("C15.detect.shape", "detect_bad_channels did not return (labels, features)")
+            return None
+        return r
+
+    first = None
+    if reuse == "pollute":
+        # another recording of the same shape goes through the function first (the same channels in reverse order, a view of
+        # the same buffer); what that call returned must still be intact after the call that is checked, as raw_metrics
+        # uses the features of its first call after its second one
+        first = unpack(ctx.call("C15.detect", v.detect_bad_channels, Xin[::-1], *tail, **kw))
+        if first is None:
+            return
+        try:
+            first_copy = (np.array(first[0], copy=True), {k: np.array(a, copy=True) for k, a in first[1].items()})
+        except Exception:  # noqa
+            ctx.fail("C15.detect.shape", "labels / features of a call are not arrays")
+            return
+    r = unpack(ctx.call("C15.detect", v.detect_bad_channels, Xin, *tail, **kw))
+    if r is None:
         return
-    try:
-        lab, xf = r
-    except Exception:  # noqa
-        ctx.fail("C15.detect.shape", "detect_bad_channels did not return (labels, features)")
-        return
+    lab, xf = r
     ctx.check(np.array_equal(Xin, X), "C15.detect.input_modified", "detect_bad_channels modified its input array")
     _compare(ctx, lab, allowed, special, f"fault {fault}")
     _margins(ctx, xf, allowed, fault, nc)
+    if first is not None:
+        same = np.array_equal(first[0], first_copy[0]) and set(first[1]) == set(first_copy[1]) and all(
+            np.array_equal(first[1][k], first_copy[1][k]) for k in first_copy[1])
+        ctx.check(same, "C15.detect.result_overwritten",
+                  "labels / features returned by one call changed during the next call with another array of the same shape")
+    if reuse == "twice":
+        # the same argument objects a second time
+        r2 = unpack(ctx.call("C15.detect", v.detect_bad_channels, Xin, *tail, **kw))
+        if r2 is None:
+            return
+        ctx.check(np.array_equal(Xin, X), "C15.detect.input_modified", "detect_bad_channels modified its input array (second call)")
+        _compare(ctx, r2[0], allowed, special, f"second call with the same array, fault {fault}")
 
 
 # ------------------------------------------------------------------------------------------------------------------
